@@ -25,7 +25,7 @@ OWNER_HEAD = {"draws": "C07", "success": "C02", "value": "C05", "conn": "C02", "
               "done": "C06"}
 OWNER_COL = {"addr": "C04", "comp": "C01", "reach": "C03", "disc": "C03", "access": "C01",
              "value": "C04", "dvalue": "C04", "os": "C04", "svc": "C04", "proc": "C04"}
-PRED_IDS = ["C01", "C02", "C03", "C04", "C05", "C06", "C07", "C08"]
+PRED_IDS = ["C01", "C02", "C03", "C04", "C05", "C06", "C07", "C08", "C09"]
 
 
 def take_opt(xs, i):
@@ -208,6 +208,23 @@ def explore(sc, max_states, res):
                 queries.append(q)
                 records.append(rec)
                 meta.append(outcome_class(a, info))
+    # third pass: fresh environment objects that have never stepped anything are handed the deepest
+    # explored states (most compromised hosts): whatever the implementation tracks on the side
+    # while it steps (sets of "hosts compromised so far", ...) is missing there
+    envF2 = NASimEnv(sc, fully_obs=True, flat_actions=True, flat_obs=False)
+    envP2 = NASimEnv(sc, fully_obs=False, flat_actions=True, flat_obs=True)
+    late = list(seen.values())[-REVISIT:]
+    for st in late:
+        d0 = C.dyn_of(envF, st)
+        for a, tk in zip(acts, toks):
+            rec, ns, info = impl_record(sc, envF2, envP2, st, a, 0.0, frame_log)
+            q = "Q " + " ".join(map(str, d0 + tk + [C.fr(0.0)]))
+            if q in first and first[q] != rec:
+                frame_log.append("generative_step is not a function of (state, action, draw): a fresh environment "
+                                 "of the same scenario returned something else for the same call")
+            queries.append(q)
+            records.append(rec)
+            meta.append(outcome_class(a, info))
     res["frame_violations"] += [dict(what=w) for w in sorted(set(frame_log))]
     return queries, records, meta, len(seen), envF
 
@@ -320,6 +337,16 @@ def walk(sc, rng, length, res):
         else:
             continue
         uval = rng.choice(placements(a.prob))
+        if 0.06 <= r < 0.12:
+            # documented side-effect-free public calls in mid-episode must not change what follows
+            for m, e in envs.items():
+                cur = e.current_state.tensor.tobytes(); steps = e.steps
+                e.generate_initial_state()
+                if m[1]:
+                    e.get_action_mask()          # defined for the flat action space only
+                e.goal_reached()
+                if e.current_state.tensor.tobytes() != cur or e.steps != steps:
+                    cross.append("generate_initial_state / get_action_mask / goal_reached disturbed the environment")
         if r > 0.9 and older:
             # generative_step on a stored older state must not disturb the walk (C13)
             st_old = rng.choice(older)
@@ -407,7 +434,7 @@ def run_scenario(args):
         for q, rec, got in bad[:200]:
             pb = preds.get(q)
             false_preds = [PRED_IDS[i] for i, v in enumerate(pb or []) if v == 0] \
-                if pb and all(isinstance(v, int) for v in pb) and len(pb) == 8 else None
+                if pb and all(isinstance(v, int) for v in pb) and len(pb) == len(PRED_IDS) else None
             res["mismatches"].append(dict(
                 fields=diff_fields(rec, got), query=q, impl=rec, model=got,
                 false_predicates=false_preds, scenario=scen_gen.describe(sc), wire=lines))
@@ -427,6 +454,10 @@ def run_scenario(args):
     except C.Untranslatable as e:
         res["untranslatable"] += 1
         res["error"] = f"untranslatable: {e}"
+    except C.ImplLayout as e:
+        res["impl_exception"] = C.layout_finding(e, "dynamics exploration", dict(scenario_index=idx, scenario_kind=kind))
+    except C.ImplAction as e:
+        res["impl_exception"] = C.action_finding(e, "dynamics exploration", dict(scenario_index=idx, scenario_kind=kind))
     except Exception as e:
         if C.raised_by_implementation(e):
             res["impl_exception"] = C.impl_exception_finding(
@@ -496,6 +527,7 @@ def diff_walk(impl, model, ops_line):
 
 
 CROSS_OWNER = [("C05:", "C05"), ("1D observation", "C09"), ("step disagrees", "C13"), ("older state", "C13"),
+               ("disturbed the environment", "C13"),
                ("", "C12")]
 
 
